@@ -26,6 +26,16 @@ theorem relay_filters_as_in_source :
     uses "x/consensus/keeper/filters.IsOldestMsgPerSender" = ["len(senderAddress) < 1"] := by
   refine ⟨by decide +kernel, by decide +kernel, by decide +kernel⟩
 
+/-- the order in which `GetMessagesForRelaying` evaluates its filters (Go's `&&` stops at the first false one): valset block
+    and processed test first (`pass1`), then the per-sender filter — which REGISTERS the sender as a side effect —, and only
+    then the estimate and assignee tests (`pass2`).  `relayAux` registers the sender between `pass1` and `pass2` for exactly
+    this reason; swapping two filters in the source changes which older messages block a sender. -/
+theorem relay_filter_order_as_in_source :
+    Paloma.Gen.ConstTable.andChains =
+      [("x/consensus/keeper.Keeper.GetMessagesForRelaying",
+        [["filters.IsNotBlockedByValset", "filters.IsUnprocessed", "filters.IsOldestMsgPerSender", "filters.HasGasEstimate",
+          "filters.IsAssignedTo"]])] := by decide +kernel
+
 /-- defaults used where nothing is elected yet -/
 theorem defaults_as_in_source :
     int? "x/skyway/types.cConservativeDummyGasEstimate" = some "300000" ∧ defaultGas = 300000 ∧ defaultFee = 100000 := by
